@@ -21,6 +21,8 @@ import (
 func init() {
 	fw.Register(&fw.Prop{
 		ID:       "C02",
+		Builds:   []string{"default", "386"}, // the 386 build runs 1/12 of the random classes on a 32-bit target
+		Scale386: 12,
 		Parallel: 4, // cases are judged on 4 goroutines per shard: the library functions are stateless, shared state inside them shows up as wrong verdicts
 		Rule: "(curve, seed, path): curves secp256k1, NIST P-256, ed25519 and four pluggable curves (secp256k1/P-256 wrapped so that a quarter of all candidate I_L values are declared invalid, on NewPrivateKey and Shift, private and public side; in a second mode a sixteenth return a permanent error); seeds of length 0..128; paths of length 0..8 over {0, 1, 2^31-1, 2^31, 2^31+1, 2^32-1, random hardened / non-hardened}. Each node (stepwise NewMasterKey/DeriveChild, DeriveKeyFromPath of every prefix, Public(), public-side child) is compared with the SLIP-0010 model: private key, chain code, serialized public key, parent fingerprint; undefined derivations must fail, permanent errors must be returned. " +
 			"Non-trivial: distinct cases with path length >= 1.",
